@@ -999,3 +999,97 @@ func sharesOtherList(v ssa.Value, dst *ssa.FieldAddr, depth int) string {
 	}
 	return ""
 }
+
+// --- R-PATHRO: reading a Path does not write the Path ---------------------------------------------
+
+var rulePathRO = &Rule{
+	Name: "R-PATHRO", NeedSSA: true,
+	Doc: "no exported method of *Path other than the ones that fill it (Scan, UnmarshalText, UnmarshalBinary, UnmarshalJSON), and no function of package path such a method hands its receiver to, stores through the receiver: a Path shared between goroutines is only read by String, the Marshal methods, Value and the query methods (a text cached on first use is a write)",
+	Run: func(p *Prog) *RuleOut {
+		out := newOut("R-PATHRO")
+		pathT, _ := lookupNamed(p.Pkgs[pkgPath].Types, "Path")
+		if pathT == nil {
+			out.undecided("Path", "-", "", "anchor unresolved: type path.Path")
+			return out
+		}
+		mutators := map[string]bool{"Scan": true, "UnmarshalText": true, "UnmarshalBinary": true, "UnmarshalJSON": true}
+		// rooted: the address is reached from v through field/index steps only
+		var rooted func(a, v ssa.Value, d int) bool
+		rooted = func(a, v ssa.Value, d int) bool {
+			if d > 6 {
+				return false
+			}
+			if a == v {
+				return true
+			}
+			switch x := a.(type) {
+			case *ssa.FieldAddr:
+				return rooted(x.X, v, d+1)
+			case *ssa.IndexAddr:
+				return rooted(x.X, v, d+1)
+			}
+			return false
+		}
+		var scan func(fn *ssa.Function, recv ssa.Value, depth int, seen map[*ssa.Function]bool) string
+		scan = func(fn *ssa.Function, recv ssa.Value, depth int, seen map[*ssa.Function]bool) string {
+			if seen[fn] || depth > 3 {
+				return ""
+			}
+			seen[fn] = true
+			for _, b := range fn.Blocks {
+				for _, ins := range b.Instrs {
+					switch x := ins.(type) {
+					case *ssa.Store:
+						if rooted(x.Addr, recv, 0) {
+							return "store through the receiver at " + p.pos(x.Pos()) + " in " + fnName(fn)
+						}
+					case *ssa.Call:
+						sc := x.Call.StaticCallee()
+						if sc == nil || x.Call.IsInvoke() || sc.Blocks == nil || fnPkgPath(sc) != pkgPath || (sc.Object() != nil && mutators[sc.Name()] && sc.Signature.Recv() != nil) {
+							if sc != nil && sc.Signature.Recv() != nil && mutators[sc.Name()] && fnPkgPath(sc) == pkgPath && len(x.Call.Args) > 0 && x.Call.Args[0] == recv {
+								return "calls " + sc.Name() + " on the receiver at " + p.pos(x.Pos()) + " in " + fnName(fn)
+							}
+							continue
+						}
+						for i, a := range x.Call.Args {
+							if a == recv && i < len(sc.Params) {
+								if why := scan(sc, sc.Params[i], depth+1, seen); why != "" {
+									return why
+								}
+							}
+						}
+					}
+				}
+			}
+			return ""
+		}
+		n := 0
+		ms := p.SSA.MethodSets.MethodSet(types.NewPointer(pathT))
+		for i := 0; i < ms.Len(); i++ {
+			m := ms.At(i)
+			if !m.Obj().Exported() || mutators[m.Obj().Name()] {
+				continue
+			}
+			fn := p.SSA.MethodValue(m)
+			if fn == nil || fn.Blocks == nil || len(fn.Params) == 0 {
+				continue
+			}
+			// a method promoted from the embedded tree is the tree's business (R-IMMUT-AST)
+			if fnPkgPath(fn) != pkgPath || fn.Synthetic != "" {
+				continue
+			}
+			n++
+			key := "(*Path)." + m.Obj().Name() + " does not write the Path"
+			if why := scan(fn, fn.Params[0], 0, map[*ssa.Function]bool{}); why != "" {
+				out.viol(key, p.pos(fn.Pos()), fnName(fn), "a method that only reads the Path writes it ("+why+"): two goroutines sharing the Path race, and the value changes under a caller that compares or copies it")
+			} else {
+				out.ok(key, p.pos(fn.Pos()), fnName(fn), "no store through the receiver, directly or in a function of the package it is handed to")
+			}
+		}
+		out.Counts["reading_methods_of_Path"] = n
+		out.Floors["reading_methods_of_Path"] = 4
+		return out
+	},
+}
+
+func init() { register(rulePathRO) }
